@@ -56,6 +56,10 @@ var reviewedDropped = map[string]string{
 }
 
 func runC08(p *Prog, r *Report) {
+	if want("C08.18") {
+		// journal damage is never stepped over silently (shared with C12)
+		ruleDamageReported(p, r, "C08.18")
+	}
 	if want("C08.1") {
 		ruleErrorDiscipline(p, r, "C08.1")
 	}
